@@ -35,7 +35,8 @@
      structure of [outbufs] (rotation, pop(0).close()) is dropped: C13 speaks
      about who closes what, not about byte order (C04/C17 do).  Closing the
      buffers may or may not zero [buf] (OverflowableBuffer.close() does nothing
-     in the strbuf stage): the environment decides ([AKeep]).
+     in the strbuf stage): the environment decides ([ABufLen]); likewise whether an
+     append() after the close still works ([AKeep], see [append_works]).
    * The parser is the environment: a recv() that yields data yields a list of
      [item]s, one per iteration of the `while data:` loop of received(), each
      carrying the three facts that loop reads (expect_continue and
@@ -450,6 +451,9 @@ Definition p2_ok (r w e : list fdt) (l : list (fdt * (bool * bool) * (bool * boo
 (* what the closed buffers still report as their length *)
 Definition buf_left (a : answer) (x : chan_st) : nat :=
   match a with ABufLen n => Nat.min n (buf x) | _ => 0 end.
+(* append() on a buffer whose close() has been called: works in the strbuf stage (close() is a
+   no-op there), raises ValueError once the buffer is a closed BytesIO / file: the environment's *)
+Definition append_works (a : answer) : bool := match a with AKeep b => b | _ => false end.
 (* which channels maintenance() marks in this poll turn *)
 Definition maint_of (a : answer) : bool * bool :=
   match a with AMaint x y => (x, y) | _ => (false, false) end.
@@ -607,7 +611,7 @@ Definition exec (g : cfg) (t : tid) (i : instr) (a : answer) (s : state) : resul
     Norm (setc s c (upd_req x (nreq x) false (sentc x) (queued x))) [] []
   | IContAppend c =>
     let x := getc s c in
-    if bufc x then Raise s XValueError []
+    if bufc x && negb (append_works a) then Raise s XValueError []
     else
       let x1 := upd_bufs x (bufc x) (pend x + 25) (buf x + 25) (wire x) in
       Norm (setc s c (upd_req x1 (nreq x1) (pexp x1) true (queued x1))) [] []
@@ -731,7 +735,7 @@ Definition exec (g : cfg) (t : tid) (i : instr) (a : answer) (s : state) : resul
   | IWsChk2 c => if conn (getc s c) then Norm s [] [] else Raise s XClientDisconnected []
   | IWsAppend c n =>
     let x := getc s c in
-    if bufc x then Raise s XValueError []
+    if bufc x && negb (append_works a) then Raise s XValueError []
     else Norm (setc s c (upd_bufs x (bufc x) (pend x + n) (buf x + n) (wire x))) [] []
   | IWsFlush c =>
     let x := getc s c in
